@@ -453,7 +453,9 @@ class C24(PropertyCheck):
             "(random seed, chromosome length 4-30), executed, truncated at the first exception and given "
             "assertions by the real AssertionGenerator (SIMPLE) as in the pipeline, written by "
             "TestSuiteWriter.write (x no_xfail x black x seed fixture) and parsed back by parse_seed_module "
-            "(x create_assertions); a third of the cases perturb the written file (correspondence only); "
+            "(x create_assertions); 45% of the suites additionally contain 1-3 test cases with the SAME statements as "
+            "an earlier one (clones, and clones whose recorded assertion values are shifted = the same calls traced "
+            "at another module state); a third of the cases perturb the written file (correspondence only); "
             "non-trivial = the written file has an assertion, a pytest.raises block, a lambda or a keyword "
             "argument naming a public module member")
     assumptions = [
@@ -521,6 +523,13 @@ class C24(PropertyCheck):
             case["perturb"] = [[rng.randrange(1 << 16), rng.randrange(1 << 16), rng.randrange(len(PERTURBATIONS)),
                                 rng.randrange(1 << 16), rng.randrange(1 << 16)]
                                for _ in range(rng.choice([1, 2, 4]))]
+        # test functions with the SAME statements as an earlier one: clones (they survive crossover / a
+        # switched-off minimisation) and re-traced clones (same calls observed at another module state:
+        # equal statements, different assertion values); [pick, mode, salt], mode 0 = clone, 1 = re-traced
+        case["dup"] = []
+        if rng.random() < 0.45:
+            case["dup"] = [[rng.randrange(1 << 16), rng.choice([0, 1, 1]), rng.randrange(1 << 16)]
+                           for _ in range(rng.choice([1, 1, 2, 3]))]
         return case
 
     def _make_suite(self, env, case):
@@ -541,7 +550,38 @@ class C24(PropertyCheck):
         suite.accept(pp.ExceptionTruncation())
         if case["assertions"]:
             suite.accept(ag.AssertionGenerator(env.executor, filtering_executor=None))
+        for pick, mode, salt in case.get("dup", []):
+            if suite.size() == 0:
+                break
+            twin = suite.get_test_case_chromosome(pick % suite.size()).clone()
+            if mode == 1:
+                self._retrace(twin.test_case, salt)
+            suite.add_test_case_chromosome(twin)
         return suite
+
+    @staticmethod
+    def _retrace(test_case, salt):
+        """the same statements traced at another state: every recorded scalar value / length is shifted"""
+        import libcst as cst
+        import pynguin.assertion.assertion as ass
+        for st in test_case.statements():
+            # the value of a literal assignment does not depend on any state: its own assertion stays
+            literal = "(" not in cst.Module(body=[st.node]).code
+            for i, a in enumerate(list(st.assertions)):
+                if literal and a.source == st.bound_variable:
+                    continue
+                if isinstance(a, ass.ObjectAssertion):
+                    v = a.object
+                    if isinstance(v, bool):
+                        st.assertions[i] = ass.ObjectAssertion(a.source, not v)
+                    elif isinstance(v, int):
+                        st.assertions[i] = ass.ObjectAssertion(a.source, v + 1 + salt % 7)
+                    elif isinstance(v, str):
+                        st.assertions[i] = ass.ObjectAssertion(a.source, v + "x" * (1 + salt % 2))
+                elif isinstance(a, ass.FloatAssertion):
+                    st.assertions[i] = ass.FloatAssertion(a.source, a.value + 1.5 + salt % 3)
+                elif isinstance(a, ass.CollectionLengthAssertion):
+                    st.assertions[i] = ass.CollectionLengthAssertion(a.source, a.length + 1 + salt % 2)
 
     @staticmethod
     def _perturb(text, env, case):
@@ -649,6 +689,20 @@ class C24(PropertyCheck):
         finally:
             des.CstStatementDeserializer.deserialize_function = orig
         io["n_returned"] = len(got)
+        # which of the deserialised functions (file order) came back, and what the returned test cases render to
+        pos = {id(tc): i for i, (_, tc) in enumerate(seen)}
+        io["returned"] = [pos.get(id(t), -1) for t in got]
+        io["returned_code"] = []
+        for t in got:
+            parts = []
+            for st in t.statements():
+                parts.append(cst.Module(body=[st.node]).code)
+                for a in st.assertions:
+                    node = assertion_to_cst(a)
+                    parts.append(cst.Module(body=[node]).code if node is not None else "")
+            io["returned_code"].append("".join(parts))
+        if case.get("dup"):
+            self.count("kind:duplicate-statements")
         io["parsed"] = []
         for name, tc in seen:
             stmts, rendered = [], []
@@ -699,6 +753,18 @@ class C24(PropertyCheck):
                               "builtins": sorted(dir(builtins)), "ca": io["ca"], "header": io["header"],
                               "fns": [f["body"] if f["body"] is not None else [] for f in io["fns"]]})
 
+    @classmethod
+    def _unordered_sets(cls, t):
+        """an abstract expression with the elements of every set display sorted: since /repo c636a34 `_value_to_cst`
+        emits set elements ordered by their source text, the model keeps the literal's order; the order of a set
+        display is not significant (see `assumptions`)"""
+        if isinstance(t, list):
+            out = [cls._unordered_sets(x) for x in t]
+            if len(out) == 2 and out[0] == "s" and isinstance(out[1], list):
+                out[1] = sorted(out[1], key=vcommon.jdump)
+            return out
+        return t
+
     def compare(self, case, io, mo):
         if "syntax_error" in io:
             return True  # a perturbation broke the file; nothing to compare
@@ -711,10 +777,18 @@ class C24(PropertyCheck):
             if f["body"] is None:
                 continue
             got = [{"node": s["node"], "bound": s["bound"],
-                    "asserts": [{"k": a["k"], "src": a["src"], "t": a["t"]} for a in s["asserts"]]}
+                    "asserts": [{"k": a["k"], "src": a["src"], "t": self._unordered_sets(a["t"])}
+                                for a in s["asserts"]]}
                    for s in p["stmts"]]
-            if got != m["stmts"]:
+            want = [{"node": s["node"], "bound": s["bound"],
+                     "asserts": [{"k": a["k"], "src": a["src"], "t": self._unordered_sets(a["t"])}
+                                 for a in s["asserts"]]}
+                    for s in m["stmts"]]
+            if got != want:
                 ok = False
+        # the returned list: one test case per function with an admitted statement, in file order
+        if all(f["body"] is not None for f in io["fns"]) and io.get("returned") != mo.get("returned"):
+            ok = False
         return ok
 
     # -- the property on the implementation's behaviour ------------------------------------------------
@@ -728,6 +802,13 @@ class C24(PropertyCheck):
                             f"{io['parse_error']}", detail=io["text"])]
         by_name = {p["name"]: p for p in io["parsed"]}
         n_nonempty = 0
+        returned = []
+        for code in io.get("returned_code", []):
+            try:
+                returned.append([g[0] for g in canon_lines(code, io["imported"], io["module"], io["alias"])])
+            except SyntaxError:
+                returned.append(None)
+        stmts_seen = []
         for f in io["fns"]:
             want = canon_lines(f["src"], io["imported"], io["module"], io["alias"])
             if not io["ca"]:
@@ -750,6 +831,18 @@ class C24(PropertyCheck):
                                   f"{p['code'][:400]!r}", detail={"file": io["text"], "function": f["name"]}))
                 continue
             if [g[0] for g in got] == [w[0] for w in want]:
+                # deserialised correctly: then parse_seed_module must hand back a test case that renders to it
+                only_stmts = [w[0] for w in want if not w[1]]
+                if want and [w[0] for w in want] not in returned:
+                    twin = only_stmts in stmts_seen
+                    fs.append(Failure(
+                        {"class": "function-without-test-case",
+                         "cause": "same-statements-as-earlier-function" if twin else "other"},
+                        f"{f['name']}: none of the {len(returned)} test cases returned by parse_seed_module renders "
+                        f"to this function (statements and assertions: {[w[2] for w in want][:6]})"
+                        + ("; an earlier function has the same statements" if twin else ""),
+                        detail={"file": io["text"], "function": f["name"], "returned": io.get("returned_code")}))
+                stmts_seen.append(only_stmts)
                 continue
             gd, wd = [g[0] for g in got], [w[0] for w in want]
             if sorted(gd) == sorted(wd):
